@@ -813,3 +813,75 @@ pub fn icmp_error_frame(net: &Net, typ: u8, code: u8, qproto: u8, l4: &[u8]) -> 
         _ => vec![],
     }
 }
+
+/// Rebuild a consistent Ethernet/IP frame with IPv4 header options and / or TCP options inserted
+/// (lengths, data offset and checksums recomputed). None = the frame is not a plain 20-byte-header
+/// IPv4 / 40-byte IPv6 packet (or its TCP header already has options): left alone.
+pub fn insert_options(f: &[u8], ip4_opts: &[u8], tcp_opts: &[u8]) -> Option<Vec<u8>> {
+    if f.len() < 14 + 20 || ip4_opts.len() % 4 != 0 || tcp_opts.len() % 4 != 0 || ip4_opts.len() > 40 || tcp_opts.len() > 40 {
+        return None;
+    }
+    let et = be16(f, 12);
+    let p = &f[14..];
+    let (v4, hl, proto) = if et == ET_V4 && p[0] == 0x45 && be16(p, 2) as usize == p.len() {
+        (true, 20usize, p[9])
+    } else if et == ET_V6 && p.len() >= 40 && p[0] >> 4 == 6 && be16(p, 4) as usize + 40 == p.len() {
+        (false, 40usize, p[6])
+    } else {
+        return None;
+    };
+    let mut l4 = p[hl..].to_vec();
+    let (src, dst): (IpAddr, IpAddr) = if v4 {
+        (IpAddr::V4(Ipv4Addr::new(p[12], p[13], p[14], p[15])), IpAddr::V4(Ipv4Addr::new(p[16], p[17], p[18], p[19])))
+    } else {
+        let mut s = [0u8; 16];
+        s.copy_from_slice(&p[8..24]);
+        let mut t = [0u8; 16];
+        t.copy_from_slice(&p[24..40]);
+        (IpAddr::V6(Ipv6Addr::from(s)), IpAddr::V6(Ipv6Addr::from(t)))
+    };
+    let mut changed = false;
+    if proto == P_TCP && !tcp_opts.is_empty() && l4.len() >= 20 && l4[12] >> 4 == 5 {
+        let mut n = l4[..20].to_vec();
+        n[12] = (((20 + tcp_opts.len()) / 4) as u8) << 4 | (n[12] & 0x0f);
+        n.extend_from_slice(tcp_opts);
+        n.extend_from_slice(&l4[20..]);
+        n[16] = 0;
+        n[17] = 0;
+        let c = inet_csum(&n, pseudo(&src, &dst, P_TCP, n.len()));
+        n[16] = (c >> 8) as u8;
+        n[17] = c as u8;
+        l4 = n;
+        changed = true;
+    }
+    let mut out = f[..14].to_vec();
+    if v4 {
+        let mut h = p[..20].to_vec();
+        if !ip4_opts.is_empty() {
+            h[0] = 0x40 | ((20 + ip4_opts.len()) / 4) as u8;
+            h.extend_from_slice(ip4_opts);
+            changed = true;
+        }
+        let tl = (h.len() + l4.len()).min(65535) as u16;
+        h[2] = (tl >> 8) as u8;
+        h[3] = tl as u8;
+        h[10] = 0;
+        h[11] = 0;
+        let c = inet_csum(&h, 0);
+        h[10] = (c >> 8) as u8;
+        h[11] = c as u8;
+        out.extend_from_slice(&h);
+    } else {
+        let mut h = p[..40].to_vec();
+        let pl = l4.len().min(65535) as u16;
+        h[4] = (pl >> 8) as u8;
+        h[5] = pl as u8;
+        out.extend_from_slice(&h);
+    }
+    out.extend_from_slice(&l4);
+    if changed {
+        Some(out)
+    } else {
+        None
+    }
+}
